@@ -84,6 +84,12 @@ theorem readInputInit_indep {c : Cfg} (h : c.parseStartsClean) (l l' : Nat) (b :
     readInputInit c l b = readInputInit c l' b := by
   simp only [readInputInit, parse, parseStartLog_clean h]
 
+theorem constructObjects_indep {c : Cfg} (h : c.parseStartsClean) (n : Nat) (l l' : Nat) :
+    (constructObjects c l n).2 = (constructObjects c l' n).2 := by
+  cases n with
+  | zero => rfl
+  | succ n => simp only [constructObjects, objectInit_indep h l l' .ok]
+
 /-! ## C17_latch — the closure cells of generated setters never change -/
 
 theorem setterGate_local {c : Cfg} (h : c.writesClosure = false) (cell : Option ClassId) (d : SetterDecl)
@@ -107,6 +113,7 @@ theorem C17_latch (fuel : Nat) (w : World) (op : Op) : (step codeCfg fuel w op).
   | removeCard p i => simp only [step]; split <;> (try split) <;> simp [setProblem]
   | deepcopy a b => simp only [step]; split <;> simp [setProblem]
   | write p => simp only [step]; split <;> simp
+  | construct n => simp only [step]; split <;> simp
 
 /-- … so whether a generated setter accepts a value is a function of (declared types, class of self, value) and of
     nothing else, for every declaration the translator found in montepy/ (with any numbering of classes). -/
@@ -183,6 +190,7 @@ theorem C17_isolate_frame (c : Cfg) (fuel : Nat) (w : World) (op : Op) (B : Prob
     · rfl
     · exact setProblem_other _ _ _ _ hB
   | write p => simp only [step]; split <;> rfl
+  | construct n => simp only [step]; split <;> rfl
 
 /-- the part of a read state that a later input can see when every parse starts clean -/
 def RState.core (s : RState) : List FileId × List Card := (s.queue, s.cards)
@@ -197,6 +205,7 @@ theorem consumeItem_congr {c : Cfg} (h : c.parseStartsClean) (s s' : RState) (hs
   | read f b => simp only [consumeItem, readInputInit_indep h l l' b]
   | bad b => simp only [consumeItem, objectInit_indep h l l' b]
   | card cd => simp only [consumeItem, objectInit_indep h l l' .ok]
+  | other => simp only [consumeItem, objectInit_indep h l l' .ok]
 
 theorem consumeItems_congr {c : Cfg} (h : c.parseStartsClean) (items : List Item) (s s' : RState)
     (hs : s.core = s'.core) :
@@ -304,6 +313,17 @@ theorem C17_isolate_result (fuel : Nat) (w w' : World) (op : Op)
   | setter d s v =>
     refine ⟨?_, ?_⟩
     · simp only [step, setterGate_local (c := codeCfg) rfl]
+    · intro p hp; simp [Op.sees, Op.target, Op.source] at hp
+  | construct n =>
+    have hc := constructObjects_indep (c := codeCfg) (by decide) n w.log w'.log
+    refine ⟨?_, ?_⟩
+    · simp only [step]
+      rcases h1 : constructObjects codeCfg w.log n with ⟨l1, e1⟩
+      rcases h2 : constructObjects codeCfg w'.log n with ⟨l2, e2⟩
+      rw [h1, h2] at hc
+      simp only at hc
+      subst hc
+      cases e1 <;> rfl
     · intro p hp; simp [Op.sees, Op.target, Op.source] at hp
   | read p fs top =>
     have hp := h p (Or.inl rfl)
